@@ -1,15 +1,15 @@
 #!/bin/sh
-# try_mutant.sh <patch.diff> <ID>... : apply a change to /repo, run the quick checks named, undo it.
-# Prints one line per check: <ID> exit=<code> (1 = detected).
+# try_mutant.sh <patch.diff> <ID>... : apply a change to a private scratch worktree of /repo, run the
+# named checks against it (VERIF_REPO), remove the worktree. /repo itself is never touched.
 P="$1"; shift
-cd /repo || exit 2
-if [ -n "$(git status --porcelain)" ]; then echo "/repo is not clean" >&2; exit 2; fi
-git apply "$P" || { echo "patch does not apply" >&2; exit 2; }
-trap 'cd /repo && git checkout -q -- . && git clean -fdq' EXIT INT TERM
+WT=$(mktemp -d /tmp/try-wt-XXXXXX); rmdir "$WT"
+git -C /repo worktree add -q --detach "$WT" HEAD || exit 2
+trap 'git -C /repo worktree remove --force "$WT"' EXIT INT TERM
+(cd "$WT" && git apply "$P") || { echo "patch does not apply" >&2; exit 2; }
 TIER="${TIER:-quick}"
 for id in "$@"; do
-  out=$(cd /verif && ./run_check.sh "$id" "$TIER" 2>&1); code=$?
+  out=$(cd /verif && VERIF_OUT_DIR=/tmp/try-out VERIF_REPO="$WT" ./run_check.sh "$id" "$TIER" 2>&1); code=$?
   echo "$id exit=$code $(echo "$out" | grep -c '^VIOLATION') violation lines"
-  echo "$out" | grep '^  \[' | head -${SHOW:-2}
+  echo "$out" | grep '^  \[' | head -${SHOW:-2} | cut -c1-${WIDTH:-300}
   [ $code -eq 2 ] && echo "$out" | tail -15
 done
